@@ -422,6 +422,12 @@ def gen_line(rng, args, cons, maxuses=6):
             while len(vals) < n and guard < 50:
                 guard += 1
                 v = gen_value(rng, a)
+                if a.clear and a.init and rng.chance(1, 3):
+                    # a value equal to one of the defaults that clear-before-assign discards: not a duplicate
+                    iv = rng.choice(a.init.split('~'))
+                    iv = iv if a.kind == 'vi' else bytes.fromhex(iv).decode()
+                    if run_checks_py(a, iv):
+                        v = iv
                 if a.uniq_err and _canon(a, v) in [_canon(a, x) for x in vals] + _init_canon(a):
                     continue
                 vals.append(v)
@@ -708,12 +714,14 @@ def mutate(rng, kind, args, cons, uses):
         del uses[i]
         return spell_(uses)
     if kind == 'duplicate':
-        cand = [i for i, u in enumerate(uses) if u.arg.is_value() and not u.arg.is_vec() and not u.arg.card
-                and _plain(u.arg)]
+        # a scalar with the default cardinality (at most one value) or a flag, given twice
+        cand = [i for i, u in enumerate(uses) if ((u.arg.is_value() and not u.arg.is_vec()) or u.arg.kind == 'b')
+                and not u.arg.card and _plain(u.arg)]
         if not cand:
             return None
         i = rng.choice(cand)
-        uses.insert(rng.range(i + 1, len(uses)), Use(uses[i].arg, [gen_value(rng, uses[i].arg)]))
+        again = Use(uses[i].arg, [gen_value(rng, uses[i].arg)] if uses[i].arg.is_value() else [])
+        uses.insert(rng.range(i + 1, len(uses)), again)
         return spell_(uses)
     if kind in ('unknown-short', 'unknown-long'):
         w = spell_(uses)
